@@ -174,3 +174,53 @@ class Kit:
             else:
                 res.append(("raw", data))
         return res
+
+
+# ----------------------------------------------------------------------------- hand-built wire messages
+
+
+class Wire:
+    """Builds abstract protobuf messages directly from the descriptor (a foreign producer)."""
+
+    def __init__(self, it: Interp):
+        self.it = it
+
+    def msg(self, mtype: str, **kw: Any) -> Msg:
+        return models.new_msg(self.it, mtype, [], kw)
+
+    def options_row(self, physical: int, logical: int, names: int = 8, prefixes: int = 8, datatypes: int = 8, version: int = 1, **kw: Any) -> Msg:
+        o = self.msg(
+            "RdfStreamOptions",
+            physical_type=physical,
+            logical_type=logical,
+            max_name_table_size=names,
+            max_prefix_table_size=prefixes,
+            max_datatype_table_size=datatypes,
+            version=version,
+            **kw,
+        )
+        return self.msg("RdfStreamRow", options=o)
+
+    def bnode_triple(self, tag: str, mtype: str = "RdfTriple", **extra: Any) -> Msg:
+        return self.msg(mtype, s_bnode=sstr(Atom(tag + ".s")), p_bnode=sstr(Atom(tag + ".p")), o_bnode=sstr(Atom(tag + ".o")), **extra)
+
+    def statement_rows(self, physical: int, n: int = 1, tag: str = "t") -> list[Msg]:
+        rows: list[Msg] = []
+        if physical == 1:
+            for i in range(n):
+                rows.append(self.msg("RdfStreamRow", triple=self.bnode_triple(f"{tag}{i}")))
+        elif physical == 2:
+            for i in range(n):
+                rows.append(self.msg("RdfStreamRow", quad=self.bnode_triple(f"{tag}{i}", "RdfQuad", g_bnode=sstr(Atom(f"{tag}{i}.g")))))
+        elif physical == 3:
+            rows.append(self.msg("RdfStreamRow", graph_start=self.msg("RdfGraphStart", g_bnode=sstr(Atom(f"{tag}.g")))))
+            for i in range(n):
+                rows.append(self.msg("RdfStreamRow", triple=self.bnode_triple(f"{tag}{i}")))
+            rows.append(self.msg("RdfStreamRow", graph_end=self.msg("RdfGraphEnd")))
+        return rows
+
+    def frame(self, rows: list[Msg], metadata: Any = None) -> Msg:
+        f = self.msg("RdfStreamFrame", rows=AList(list(rows)))
+        if metadata is not None:
+            f.fields["metadata"] = metadata
+        return f
